@@ -35,12 +35,20 @@ def run(chk):
     chk.section("function-type", lambda: fntype(chk))
     chk.section("dfcontainer", lambda: dfcontainer(chk))
     chk.section("comptime-callers", lambda: comptime_callers(chk))
+    chk.section("borrow-shadowing", lambda: _shadowing(chk))
     for i in range(NCH):
         chk.section(f"bounded-{i}", lambda i=i: bounded(chk, i))
     chk.expected_min_obligations = 60
     chk.assumptions += ["the callee's definition returns its borrowed parameters after the regular results in parameter order (compile_cfg / function compilation; exercised by the bounded layer, not proved here)",
                         "argument lists of length <= 3 are enumerated"]
     chk.not_covered += ["qubit-typed borrowed values on the emulator (bounded layer uses int arrays, structs, nested arrays, tuples)", "comptime callers beyond update_packed_value (trace_call's builder calls)"]
+
+
+def _shadowing(chk):
+    """a callee that re-binds a borrowed parameter would hand back the new binding and the caller would lose
+    the in-place updates: every form of re-binding is rejected (obligations of C06 L7, under this property)"""
+    from .C06 import borrow_shadowing
+    borrow_shadowing(chk, tag="callee-may-not-rebind:")
 
 
 def comptime_callers(chk):
